@@ -236,6 +236,13 @@ def rule_target_kept(check):
     check.floor(R, "AssignExpr constructions", n, 2)
 
 
+def _stmt_contains(st, node):
+    """is `node` part of the statement (or tail expression) st?"""
+    if st.get("k") in ("Semi", "Expr", "Let"):
+        return any(x is node for part in (st.get("e"), st.get("init")) if part is not None for x in hir.walk(part))
+    return any(x is node for x in hir.walk(st))
+
+
 class _CtxSim:
     """Abstract run of a small straight-line function over the visitor's context slot.  The slot is
     whatever the VisitorWithContext accessors of the operation visitor read and write: a getter
@@ -330,14 +337,17 @@ class _CtxSim:
             return None
         return None
 
-    def run_until(self, stop):
-        """executes the top-level statements that end before node `stop`"""
-        body = hir.peel(self.f.body)
+    def run_until(self, stop, body=None):
+        """executes the statements that end before node `stop` (descending into plain nested blocks)"""
+        body = hir.peel(self.f.body if body is None else body)
         blk = body.get("block") if body.get("k") == "BlockExpr" else None
         if blk is None:
             return self
-        for st in blk.get("stmts") or []:
-            if stop is not None and any(x is stop for x in hir.walk(st)):
+        for st in (blk.get("stmts") or []) + ([blk["tail"]] if blk.get("tail") is not None else []):
+            if stop is not None and _stmt_contains(st, stop):
+                inner = hir.peel(st.get("e") or st.get("init") or st) if st.get("k") in ("Semi", "Expr", "Let") else hir.peel(st)
+                if inner.get("k") == "BlockExpr" and inner is not stop:
+                    return self.run_until(stop, inner)
                 return self
             if st.get("k") == "Let":
                 v = self.ev(st.get("init")) if st.get("init") is not None else None
@@ -358,8 +368,12 @@ def rule_reset(check):
     check.floor(R, "reset_counter call sites", len(sites), 1)
     for f, n in sites:
         atoms = gate.atoms_at(f, n)
-        ok = f.name == "reset_ctx" and any(a[0] == "place" and a[1].endswith(".ctx.root") and a[2] is True for a in atoms)
-        check.expect(ok, R, R + "/reset_counter", hir.loc(n), "reset_counter only in reset_ctx under self.ctx.root", "reset_counter is called in %s without the ctx.root guard" % f.name)
+        own_gate = any(a[0] == "place" and a[1].endswith(".ctx.root") and a[2] is True for a in atoms)
+        # without a test of its own the function relies on its callers: reset_ctx is only ever called under the
+        # (restored context).root test, which the /reset_ctx clause below decides for every call site
+        ungated_ok = f.name == "reset_ctx" and not [a for a in atoms if a[0] not in ("variant",)]
+        ok = f.name == "reset_ctx" and (own_gate or ungated_ok)
+        check.expect(ok, R, R + "/reset_counter", hir.loc(n), "reset_counter only in reset_ctx (root test %s)" % ("of its own" if own_gate else "left to the callers, see /reset_ctx"), "reset_counter is called in %s without the ctx.root guard" % f.name)
     sites = [(f, n) for f, n, c in prog.call_sites() if hir.is_call(n) and c["name"] == "reset_ctx" and not f.rec.get("gen")]
     check.floor(R, "reset_ctx call sites", len(sites), 1)
     for f, n in sites:
@@ -371,11 +385,20 @@ def rule_reset(check):
         for c in f.conds_at(n):
             top = c.get("node") or top
         # the statement holding the test: the outermost `if` the call sits under
-        body_ = hir.peel(f.body)
+        # the statement holding the test: the `if` (or other statement) of the innermost plain block on the way
         holder = None
-        for st in ((body_.get("block") or {}).get("stmts") or []) + ([body_["block"]["tail"]] if (body_.get("block") or {}).get("tail") else []):
-            if any(x is n for x in hir.walk(st)):
-                holder = st
+        body_ = hir.peel(f.body)
+        for _ in range(4):
+            nxt = None
+            for st in ((body_.get("block") or {}).get("stmts") or []) + ([body_["block"]["tail"]] if (body_.get("block") or {}).get("tail") else []):
+                if _stmt_contains(st, n):
+                    holder = st
+                    inner_ = hir.peel(st.get("e") or st.get("init") or st) if st.get("k") in ("Semi", "Expr", "Let") else hir.peel(st)
+                    if inner_.get("k") == "BlockExpr":
+                        nxt = inner_
+            if nxt is None:
+                break
+            body_ = nxt
         sim.run_until(holder if holder is not None else n)
         order = isinstance(sim.slot, tuple) and sim.slot[0] == "saved"
 
